@@ -428,16 +428,27 @@ func (n *Node) DigestNote(tag string, ok bool, evs []abci.Event) {
 	}
 }
 
+// EncodeMsg Any-packs and marshals a message; it fails (instead of panicking)
+// for messages that have no wire representation.
+func (n *Node) EncodeMsg(msg sdk.Msg) (bz []byte, err error) {
+	defer func() {
+		if r := recover(); r != nil {
+			err = fmt.Errorf("message is not encodable: %v", r)
+		}
+	}()
+	any, err := codectypes.NewAnyWithValue(msg)
+	if err != nil {
+		return nil, err
+	}
+	return n.Enc.Marshaler.Marshal(any)
+}
+
 // RecordMsg appends a replayable out-of-band message step.
 func (n *Node) RecordMsg(kind string, msg sdk.Msg) {
 	if !n.Record {
 		return
 	}
-	any, err := codectypes.NewAnyWithValue(msg)
-	if err != nil {
-		return
-	}
-	bz, err := n.Enc.Marshaler.Marshal(any)
+	bz, err := n.EncodeMsg(msg)
 	if err != nil {
 		return
 	}
@@ -481,6 +492,10 @@ func IsPanicResult(res abci.ResponseDeliverTx) bool {
 // ValidateBasic, then the registered handler on a branched context written back
 // only on success.
 func (n *Node) GovExec(msg sdk.Msg) (res *sdk.Result, events []abci.Event, err error) {
+	if _, eerr := n.EncodeMsg(msg); eerr != nil {
+		// a proposal message that cannot be encoded can never reach a node
+		return nil, nil, eerr
+	}
 	n.RecordMsg("gov", msg)
 	defer func() {
 		if r := recover(); r != nil {
